@@ -74,6 +74,7 @@ NoJob == [sub |-> FALSE, soft |-> 0, hard |-> 0, acc |-> FALSE, owner |-> 0, tac
           ready |-> FALSE, out |-> "none", oarg |-> 0, lost |-> None,
           cb |-> 0, ecb |-> 0, acb |-> 0, tsoft |-> 0, thard |-> 0, tset |-> 0, tcancel |-> 0,
           tbad |-> 0,         \* timeout callbacks told the wrong kind / limit (always 0 here)
+          lateack |-> FALSE,  \* observation: its ACK was processed when the sender had already been reaped
           rel |-> FALSE,      \* observation: a result message for it gave its slot back
           late |-> FALSE,     \* observation: a result message for it was ignored while ~rel
           incache |-> FALSE]
@@ -256,6 +257,7 @@ RH_Ack ==
           /\ IF job[j].incache
                THEN job' = [job EXCEPT ![j].acc = TRUE, ![j].tacc = Some(m.time),
                                        ![j].owner = m.pid,
+                                       ![j].lateack = (m.pid \notin PoolPids(pool)),
                                        ![j].incache = ~job[j].ready,
                                        ![j].acb = job[j].acb + 1,
                                        ![j].tset = job[j].tset + 1]
@@ -598,8 +600,8 @@ QuietEnv == /\ outq = <<>> /\ inq = <<>>
             /\ \A i \in 1..Len(pool) : ~Exited(pool[i].pid)
 QuietResolved == (QuietEnv /\ pstate = "RUN" /\ ~raised) =>
     \A j \in 1..nsub : \/ job[j].ready \/ ~job[j].incache
-                        \/ (job[j].lost # None /\ now - job[j].lost[1] <= Grace)
-                        \/ (TolLateAckStatus /\ job[j].owner # 0 /\ job[j].owner \notin PoolPids(pool))
+                        \/ job[j].lost # None          \* marked: resolved by a later supervision pass (LostNotLate)
+                        \/ (TolLateAckStatus /\ job[j].lateack)
 SlotsConserved == (PutLocks /\ Quiet /\ pstate = "RUN") =>
                       (sem[1] + (IF TolLateReadySlot THEN Leaked ELSE 0) >= sem[2])
 InFlightBound == (PutLocks /\ pstate = "RUN" /\ \A p \in Pids : w[p].ex = None) =>
